@@ -204,10 +204,10 @@ var _ = fmt.Sprintf
 type vSysScriptT struct {
 	reads   []int  // per read call: -1 = EAGAIN, 0 = EOF, k>0 = deliver at most k bytes
 	rstream []byte // bytes still to be delivered by reads
-	writes  []int  // per write/writev call: -1 = EAGAIN, k>=0 accept at most k bytes
+	writes  []int  // per write/writev call: -1 = EAGAIN, -2 = EAGAIN whose wake-up comes merged with a read event, k>=0 accept at most k bytes
 	wout    []byte
 	calls   int
-	onEagainWrite func()
+	onEagainWrite func(kind int)
 }
 
 var vSysScript *vSysScriptT
@@ -259,7 +259,7 @@ func vSysWrite(fd, p, n uintptr) (uintptr, uintptr, syscall.Errno) {
 	}
 	if k < 0 {
 		if sc.onEagainWrite != nil {
-			sc.onEagainWrite()
+			sc.onEagainWrite(k)
 		}
 		return 0, 0, syscall.EAGAIN
 	}
@@ -282,7 +282,7 @@ func vSysWritev(fd, p, n uintptr) (uintptr, uintptr, syscall.Errno) {
 	}
 	if k < 0 {
 		if sc.onEagainWrite != nil {
-			sc.onEagainWrite()
+			sc.onEagainWrite(k)
 		}
 		return 0, 0, syscall.EAGAIN
 	}
